@@ -75,3 +75,42 @@ def source_hashes(names):
         except OSError:
             out[os.path.relpath(p, REPO)] = "missing"
     return out
+
+
+# ------------------------------------------------------------------ state left in the package between paths
+# The explorer re-executes the harness once per path and relies on every execution starting from the same state.  Mutable
+# containers that live at module or class level in the package (caches, registries) would carry entries from one path
+# into the next: their contents are snapshotted when first seen and restored before every path.  (Within one path such
+# state is kept - what it does to later calls is for the harness to observe.)
+
+_STATE = {}
+
+
+def _containers():
+    import inspect
+    for name, m in list(sys.modules.items()):
+        if m is None or not (name == PKG or name.startswith(PKG + ".")):
+            continue
+        owners = [("", m)]
+        for cn, c in list(vars(m).items()):
+            if inspect.isclass(c) and getattr(c, "__module__", None) == name:
+                owners.append((cn + ".", c))
+        for prefix, owner in owners:
+            for an, v in list(vars(owner).items()):
+                if an.startswith("__") and an.endswith("__"):
+                    continue
+                if type(v) in (dict, list, set):
+                    yield f"{name}:{prefix}{an}", v
+
+
+def reset_state():
+    for key, v in _containers():
+        if key not in _STATE or _STATE[key][0] is not v:
+            _STATE[key] = (v, type(v)(v))          # first sight: remember the contents
+            continue
+        _, snap = _STATE[key]
+        if type(v) is list:
+            v[:] = snap
+        else:
+            v.clear()
+            v.update(snap)
